@@ -179,6 +179,9 @@ func TestWorker(t *testing.T) {
 			out.Probes[k] += v
 		}
 		out.CrashPoints += res.Stats.CrashPoints
+		for k, v := range res.Stats.Faults {
+			out.Faults[k] += v
+		}
 		out.SimSeconds += res.Stats.SimSeconds
 		out.Ops += res.Stats.Ops
 		if len(out.Samples) < 3 && res.Stats.NonTrivial {
